@@ -152,7 +152,7 @@ fn check_mutated(input: &super::c01::Mutated, case: &mut Case) -> Result<(), Fai
 fn enum_many(_t: Tier, shard: usize, n: usize, f: &mut dyn FnMut((u8, u16)) -> bool) {
     let mut i = 0;
     for section in 0..4u8 {
-        for count in [0u16, 1, 2, 60, 127, 128, 179, 180, 181, 182, 255, 256, 257, 300, 1000, 4000] {
+        for count in crate::gen::sizes_u16(&[0u16, 1, 2, 60, 127, 128, 179, 180, 181, 182, 255, 256, 257, 300, 1000, 4000], 1100) {
             i += 1;
             if mine(i, shard, n) && !f((section, count)) {
                 return;
